@@ -197,7 +197,7 @@ def script_for(word):
 
 class C05(Check):
     pid = "C05"
-    lean_modules = []
+    lean_modules = ["MTProps.C05"]
 
     def body(self):
         rng = self.rng
@@ -699,7 +699,7 @@ class C12(Check):
 
 class C15(Check):
     pid = "C15"
-    lean_modules = []
+    lean_modules = ["MTProps.C15"]
 
     def body(self):
         rng = self.rng
@@ -885,7 +885,7 @@ class C17(Check):
 
 class C18(Check):
     pid = "C18"
-    lean_modules = []
+    lean_modules = ["MTProps.C18"]
 
     def body(self):
         D = 6
